@@ -1,2 +1,252 @@
-(** C16 — stub, filled in later. *)
-From KV Require Import Bytes RustStd Registry PresentLine.
+(** C16 — Extensions run in priority order and registry edits do what they say.
+    Only statements here; proofs are in Proofs/{RustStdProofs,RegistryProofs,PresentLineProofs,RunOrderProofs}.v.
+
+    [run_model l ops] / [run_ref l ops]: the listing after every operation of the history [ops]
+    (add, add with [Id::no_override()], remove; a panic is an outcome and leaves the vector as it
+    was), computed by the transcription of the macros [add_sorted_list!] / [remove_sorted_list!]
+    over rustc 1.95's [binary_search_by], resp. by the reference association list.
+    [desc l]: the vector is in strictly descending priority order (true of the empty vector).
+    Priorities are [Z]; [i32_min] is the only place where the width of [i32] matters. *)
+From KV Require Import Bytes RustStd Registry PresentLine RunOrder
+     RustStdProofs RegistryProofs PresentLineProofs RunOrderProofs.
+Open Scope N_scope.
+
+(** ---- 1. rustc 1.95's [binary_search_by] ---- *)
+
+(** It terminates within [len] iterations and never indexes outside the slice, for every slice
+    and every comparator (also an inconsistent one). *)
+Theorem binary_search_total : forall (T : Type) (f : T -> comparison) (l : list T),
+  exists r, binary_search_by f l = Some r.
+Proof. exact @binary_search_by_total. Qed.
+
+(** On a slice sorted strictly and consistently with the comparator: [Ok i] iff element [i] is the target. *)
+Theorem binary_search_ok_iff : forall (T : Type) (f : T -> comparison) (l : list T) (i : nat),
+  partitioned f l ->
+  (binary_search_by f l = Some (BOk i) <-> exists x, nth_error l i = Some x /\ f x = Eq).
+Proof. exact @binary_search_by_ok_iff. Qed.
+
+(** ... and [Err i] iff [i] is the insertion point, which is unique. *)
+Theorem binary_search_err_iff : forall (T : Type) (f : T -> comparison) (l : list T) (i : nat),
+  partitioned f l ->
+  (binary_search_by f l = Some (BErr i) <-> insertion_point f l i).
+Proof. exact @binary_search_by_err_iff. Qed.
+
+Theorem binary_search_insertion_point_unique : forall (T : Type) (f : T -> comparison) (l : list T) (i j : nat),
+  insertion_point f l i -> insertion_point f l j -> i = j.
+Proof. exact @insertion_point_unique. Qed.
+
+Example binary_search_nonvacuous :
+  partitioned (cmp_id_probe (A := unit) 5) [(10, tt); (5, tt); (1, tt)]%Z /\
+  binary_search_by (cmp_id_probe 5) [(10, tt); (5, tt); (1, tt)]%Z = Some (BOk 1%nat) /\
+  binary_search_by (cmp_id_probe 4) [(10, tt); (5, tt); (1, tt)]%Z = Some (BErr 2%nat).
+Proof.
+  split; [|split; reflexivity].
+  exists [(10, tt)]%Z, [(5, tt)]%Z, [(1, tt)]%Z. repeat split; repeat constructor.
+Qed.
+
+(** ---- 2. the registry ---- *)
+
+(** Every history of add / add-no_override / remove operations, for all priorities, on a
+    descending vector yields exactly the listings (and the panics) of the reference map. *)
+Theorem registry_refines_map : forall (A : Type) (ops : list (op A)) (l : list (Z * A)),
+  desc l -> run_model l ops = run_ref l ops.
+Proof. exact @run_refines. Qed.
+
+Theorem registry_refines_map_from_empty : forall (A : Type) (ops : list (op A)),
+  run_model [] ops = run_ref [] ops.
+Proof. intros. apply run_refines. constructor. Qed.
+
+(** What the reference is: after every operation the listing is strictly descending (highest
+    priority first, no priority twice) ... *)
+Theorem reference_descending : forall (A : Type) (ops : list (op A)) (l : list (Z * A)),
+  desc l -> Forall (fun r => match r with Ok l' => desc l' | _ => True end) (run_ref l ops).
+Proof. exact @run_ref_desc. Qed.
+
+(** ... [add] binds the priority to the new extension (an equal priority is replaced) and touches
+    no other priority; [remove] unbinds exactly that priority. *)
+Theorem reference_add_is_map_update : forall (A : Type) (l : list (Z * A)) (p : Z) (a : A) (q : Z),
+  desc l -> ref_get (ref_add l p a) q = if (q =? p)%Z then Some a else ref_get l q.
+Proof. exact @ref_get_add. Qed.
+
+Theorem reference_remove_is_map_remove : forall (A : Type) (l : list (Z * A)) (p q : Z),
+  ref_get (ref_remove l p) q = if (q =? p)%Z then None else ref_get l q.
+Proof. exact @ref_get_remove. Qed.
+
+(** [no_override]: the extension gets the greatest free priority at or below the requested one;
+    the panic ("reached minimum priority") happens exactly when every priority from the
+    requested one down to [i32::MIN] is taken. *)
+Theorem no_override_takes_greatest_free : forall (A : Type) (l : list (Z * A)) (p : Z),
+  desc l ->
+  match ref_free_below l p with
+  | Some p' => (p' <= p)%Z /\ ref_mem l p' = false /\ (forall q, (p' < q <= p)%Z -> ref_mem l q = true) /\
+               ((i32_min <= p)%Z -> (i32_min <= p')%Z)
+  | None => forall q, (i32_min <= q <= p)%Z -> ref_mem l q = true
+  end.
+Proof.
+  intros A l p Hd. apply (free_below_spec l Hd (S (count_le l p))). apply Nat.lt_succ_diag_r.
+Qed.
+
+(** The whole [Extensions] value (five vectors, three hash maps), from [Extensions::empty()] and
+    from [Extensions::new()]: any sequence of edits of any kind gives the reference's listings;
+    an edit touches only its own list (the reference updates one component). *)
+Theorem extensions_refine_reference : forall (e : extensions) (rs : list request),
+  ext_desc e -> ext_run remove_sorted_list e rs = ext_run_ref e rs.
+Proof. intros e rs H. apply ext_run_refines. exact H. Qed.
+
+Theorem extensions_new_descending : ext_desc extensions_empty /\ ext_desc extensions_new.
+Proof. split; [exact extensions_empty_desc|exact extensions_new_desc]. Qed.
+
+(** The macro as it was before the repair aa785b7 ([probe.0.cmp(&id)]) is refuted: on [10,5,1], remove 10. *)
+Theorem remove_sorted_list_v0_refuted :
+  exists (l : list (Z * N)) (p : Z), desc l /\ remove_sorted_list_v0 l p <> Ok (ref_remove l p).
+Proof. exact remove_v0_refuted. Qed.
+
+Example registry_nonvacuous :
+  run_model (A := N) [] [Registry.Add 5%Z false 1; Registry.Add 5%Z true 2; Registry.Add 5%Z false 3; Registry.Remove 4%Z;
+                        Registry.Add i32_min false 4; Registry.Add i32_min true 5]
+  = [Ok [(5%Z, 1)]; Ok [(5%Z, 1); (4%Z, 2)]; Ok [(5%Z, 3); (4%Z, 2)]; Ok [(5%Z, 3)]; Ok [(5%Z, 3); (i32_min, 4)]; Panic].
+Proof. vm_compute. reflexivity. Qed.
+
+(** ---- 3. the [!> ] line ---- *)
+
+(** For arbitrary bytes: [PresentExtensions::new], [split_off(data_start)] and the complete
+    iteration over names and arguments never panic; [data_start <= len], and the body handed on
+    is the input from [data_start]. (Also used by C02.) *)
+Theorem present_never_panics : forall data : bytes,
+  exists r, present_parse data = Ok r /\
+    match r with
+    | Some p => (p_data_start p <= length data)%nat /\ p_body p = skipn (p_data_start p) data
+    | None => True
+    end.
+Proof. exact present_parse_total. Qed.
+
+(** Every line of the grammar: [!> ] then words separated by single spaces (an empty word =
+    one more space, so any run of spaces; the word [&>] separates extensions, also as the last
+    word), ended by LF or CRLF; words are UTF-8 without space, CR, LF.  The parser returns the
+    names and arguments in order, [data_start] is the index just after the LF, the body is the rest. *)
+Theorem present_line_spec : forall (ws : list bytes) (crlf : bool) (rest : bytes),
+  line_words_ok ws ->
+  present_parse (render_line ws crlf ++ rest)
+  = Ok (Some {| p_entries := group_words None (nonempty_words ws);
+                p_data_start := length (render_line ws crlf);
+                p_body := rest |}).
+Proof. exact present_line_grammar. Qed.
+
+Example present_line_nonvacuous :
+  line_words_ok [B "tmpl"; B "standard.html"; []; B "md.html"; B "&>"; B "allow-ips"; B "10.0.0.16"; B "&>"] /\
+  render_line [B "tmpl"; B "standard.html"; []; B "md.html"; B "&>"; B "allow-ips"; B "10.0.0.16"; B "&>"] true
+  = B "!> tmpl standard.html  md.html &> allow-ips 10.0.0.16 &>" ++ [13; 10] /\
+  group_words None (nonempty_words [B "tmpl"; B "standard.html"; []; B "md.html"; B "&>"; B "allow-ips"; B "10.0.0.16"; B "&>"])
+  = [(B "tmpl", [B "standard.html"; B "md.html"]); (B "allow-ips", [B "10.0.0.16"])].
+Proof.
+  split; [split; [repeat constructor|reflexivity]|split; vm_compute; reflexivity].
+Qed.
+
+(** The parser as it was before the repair e1abeb3 ([data_start = pos + 2] after a CR) and the
+    argument iterator before ba40b64 ([index == back_index]) are refuted. *)
+Theorem present_v0_refuted :
+  present_parse_v0 (B "!> a" ++ [13; 10]) = Panic /\
+  (exists p, present_parse_v0 (B "!> a" ++ [13; 10] ++ B "body") = Ok (Some p) /\ p_body p = B "ody") /\
+  empty_args_next_v0 = Panic /\ empty_args_next = Ok None.
+Proof. vm_compute. repeat split; try reflexivity. eexists. split; reflexivity. Qed.
+
+(** ---- 4. run order (for arbitrary extension behaviours) ---- *)
+
+(** Prime extensions run one after the other in list order, each exactly once; the one at
+    position [length l1] sees the request as rewritten by the earlier ones (an override URI
+    [/./..] does not change the request). *)
+Theorem prime_sequential : forall (l1 : list (Z * prime_ext)) (i : Z) (pr : prime_ext) (l2 : list (Z * prime_ext))
+                                  (st : bytes * option bytes),
+  snd (resolve_prime (l1 ++ (i, pr) :: l2) st)
+  = snd (resolve_prime l1 st) ++ EPrime i (fst (prime_state l1 st))
+      :: snd (resolve_prime l2 (prime_apply pr (prime_state l1 st)))
+  /\ length (snd (resolve_prime l1 st)) = length l1.
+Proof. exact prime_sequential_model. Qed.
+
+Theorem prime_all_once_in_order : forall (l : list (Z * prime_ext)) (st : bytes * option bytes),
+  map event_prio (snd (resolve_prime l st)) = map (fun e => Some (fst e)) l.
+Proof. exact prime_trace_prios. Qed.
+
+(** A path-bound Prepare wins: no predicate is consulted, no predicate-bound extension runs. *)
+Theorem prepare_single_first : forall (single : list (bytes * handler)) (fns : list (Z * ((bytes -> bool) * handler)))
+                                      (st : bytes * option bytes) (h : handler),
+  assoc (prepare_key st) single = Some h ->
+  resolve_prepare single fns st = (Some (h (fst st)), [EPrepareSingle (prepare_key st) (fst st)]).
+Proof. exact prepare_single_first_model. Qed.
+
+(** Otherwise exactly the first predicate-bound Prepare whose predicate holds runs — later
+    matching ones do not —, and none when no predicate holds. *)
+Theorem first_predicate_only : forall (single : list (bytes * handler)) (l1 : list (Z * ((bytes -> bool) * handler)))
+                                      (i : Z) (pred : bytes -> bool) (h : handler)
+                                      (l2 : list (Z * ((bytes -> bool) * handler))) (st : bytes * option bytes),
+  assoc (prepare_key st) single = None ->
+  Forall (fun e => fst (snd e) (fst st) = false) l1 -> pred (fst st) = true ->
+  resolve_prepare single (l1 ++ (i, (pred, h)) :: l2) st = (Some (h (fst st)), [EPrepareFn i (fst st)]).
+Proof. exact first_predicate_only_model. Qed.
+
+Theorem no_matching_prepare : forall (single : list (bytes * handler)) (fns : list (Z * ((bytes -> bool) * handler)))
+                                     (st : bytes * option bytes),
+  assoc (prepare_key st) single = None -> Forall (fun e => fst (snd e) (fst st) = false) fns ->
+  resolve_prepare single fns st = (None, []).
+Proof. exact no_prepare_model. Qed.
+
+(** Present: for a body that starts with a line of the grammar, the extensions named on the
+    line that are registered run in the order of the line with exactly their arguments (after
+    the predicate-bound and the file-extension ones), and the body handed on is the rest. *)
+Theorem present_line_order : forall (pfns : list (Z * (bytes -> bool))) (pfile pint : list bytes) (path : bytes)
+                                    (ws : list bytes) (crlf : bool) (rest : bytes),
+  line_words_ok ws ->
+  resolve_present present_parse pfns pfile pint path (render_line ws crlf ++ rest) =
+  Ok (rest,
+      map (fun x => EPresentFn (fst x)) (filter (fun x => snd x path) pfns)
+      ++ (match path_extension path with Some e => if bmem e pfile then [EPresentFile e] else [] | None => [] end)
+      ++ map (fun e => EPresentInternal (fst e) (snd e))
+             (filter (fun e => bmem (fst e) pint) (group_words None (nonempty_words ws)))).
+Proof.
+  intros. eapply present_line_order_model. apply present_line_grammar. assumption.
+Qed.
+
+(** Package and Post: every registered extension, in list order, and — the list being strictly
+    descending — each exactly once. *)
+Theorem package_post_once : forall (X : Type) (l : list (Z * X)),
+  resolve_package l = map (fun e => EPackage (fst e)) l /\
+  resolve_post l = map (fun e => EPost (fst e)) l /\
+  (desc l -> NoDup (resolve_package l) /\ NoDup (resolve_post l)).
+Proof. exact @package_post_once_model. Qed.
+
+(** One request (no response cache, no file system): never a panic; the trace is Prime*,
+    Prepare?, Present*, every Package, every Post — in this order. *)
+Theorem serve_stages : forall (b : behaviours) (path : bytes),
+  exists status body present_tr,
+    serve present_parse b path =
+    (Ok (status, body),
+     snd (resolve_prime (b_prime b) (path, None))
+     ++ snd (resolve_prepare (b_single b) (b_prepare_fn b) (prime_state (b_prime b) (path, None)))
+     ++ present_tr
+     ++ map (fun e => EPackage (fst e)) (b_package b)
+     ++ map (fun e => EPost (fst e)) (b_post b))
+    /\ Forall is_present_event present_tr.
+Proof.
+  intros b path. apply serve_stages_model. intros d.
+  destruct (present_parse_total d) as (r & E & _). exists r. exact E.
+Qed.
+
+(** Edits, then requests: the host built by the macros answers every request with the trace
+    of the host built by the reference map, whose five vectors are strictly descending — so
+    "list order" above is descending priority order. *)
+Theorem run_order_after_edits : forall (parse : bytes -> outcome (option parsed)) (es : list pedit) (paths : list bytes),
+  run_scenario model_step parse es paths = run_scenario ref_step parse es paths /\
+  pc_desc (pconfig_build ref_step es).
+Proof. exact run_order_after_edits_model. Qed.
+
+Example run_order_nonvacuous :
+  let es := [ {| pe_kind := 0; pe_code := 0; pe_prio := 1; pe_key := []; pe_payload := PPrime (B "/b") (B "/c"); pe_body := [] |};
+              {| pe_kind := 0; pe_code := 0; pe_prio := 9; pe_key := []; pe_payload := PPrime (B "/a") (B "/b"); pe_body := [] |};
+              {| pe_kind := 5; pe_code := 0; pe_prio := 0; pe_key := B "/c"; pe_payload := PMark; pe_body := B "!> x 1 &> y" ++ [10] ++ B "B" |};
+              {| pe_kind := 6; pe_code := 0; pe_prio := 0; pe_key := B "y"; pe_payload := PMark; pe_body := [] |};
+              {| pe_kind := 3; pe_code := 0; pe_prio := 2; pe_key := []; pe_payload := PMark; pe_body := [] |};
+              {| pe_kind := 3; pe_code := 1; pe_prio := 2; pe_key := []; pe_payload := PMark; pe_body := [] |} ] in
+  scenario_model es [B "/a"] =
+  [(Ok (200, B "B"), [EPrime 9 (B "/a"); EPrime 1 (B "/b"); EPrepareSingle (B "/c") (B "/c");
+                      EPresentInternal (B "y") []; EPackage 2; EPackage 1])].
+Proof. vm_compute. reflexivity. Qed.
